@@ -24,6 +24,7 @@ WRITE_APIS = ("lock", "write", "borrow_mut", "set", "store", "replace", "swap", 
 def run(ctx):
     prog = ctx.prog()
     m_eq(ctx)
+    m_range(ctx)
     # (i) unsafe inventory
     if prog.unsafe:
         for cname, u in prog.unsafe:
@@ -231,3 +232,71 @@ def m_eq(ctx):
     probs = sorted(set(probs))
     (ctx.bad if probs else ctx.ok)("M-EQ", "M-EQ:Message::eq", eb.span, "; ".join(probs[:2]) if probs else
         "Message::eq = %s: equal exactly when the byte strings are" % S.term_str(t)[:80])
+
+
+def m_range(ctx):
+    """M-RANGE: the six From<range> impls of SliceRange, reduced to formulas and evaluated on every (start, end) of a small
+    grid (including the empty ranges a..a and a..=a-1 and the ends 0): (start, len) must be what the same range means on a
+    byte vector."""
+    from .. import symx as S
+    prog = ctx.prog()
+    impls = [b for b in prog.bodies.values() if b.key.startswith("elvis_core::message::slice_range::") and b.name == "from" and b.kind == "method"]
+    ctx.require(len(impls) >= 6, "M-RANGE: expected six From impls for SliceRange, found %d" % len(impls))
+    probs, n = [], 0
+    for b in impls:
+        rty = b.local_tystr(1).rsplit("::", 1)[-1].split("<")[0]
+        try:
+            t, _ = S.extract(prog, b, effects=True)
+        except S.Unsupported as e:
+            probs.append("From<%s> cannot be reduced to a formula (%s)" % (rty, e))
+            continue
+        if not (t[0] == "agg" and t[1].endswith("SliceRange::SliceRange") and len(t[2]) == 2):
+            probs.append("From<%s> does not build one SliceRange value" % rty)
+            continue
+        R = S.params_of(b)[0]
+        start_t, len_t = t[2]
+        for s_ in range(0, 5):
+            for e_ in range(0, 5):
+                if rty == "RangeInclusive" and s_ > e_ + 1:
+                    continue        # not a valid index range for a vector either
+                if rty == "Range" and s_ > e_:
+                    continue
+                want = {"Range": (s_, e_ - s_), "RangeFrom": (s_, None), "RangeFull": (0, None), "RangeInclusive": (s_, e_ + 1 - s_),
+                        "RangeTo": (0, e_), "RangeToInclusive": (0, e_ + 1)}.get(rty)
+                if want is None:
+                    continue
+                env = {("field", R, "start"): s_, ("field", R, "end"): e_}
+                for c in S.atoms(t, lambda y: y[0] == "call" and len(y[2]) == 1 and y[2][0] == R):
+                    nm = c[1].rsplit("::", 1)[-1]
+                    env[c] = {"start": s_, "end": e_, "len": max(e_ - s_, 0)}.get(nm, env.get(c))
+                for c in S.atoms(t, lambda y: y[0] == "call" and y[1].rsplit("::", 1)[-1] in ("deref", "clone") and len(y[2]) == 1 and y[2][0] in env):
+                    env[c] = env[c[2][0]]
+                try:
+                    gs = int(S.concrete(start_t, env, 64))
+                    if len_t[0] == "variant" and len_t[2] == "None":
+                        gl = None
+                    elif len_t[0] == "agg" and len_t[1].endswith("Option::Some"):
+                        gl = int(S.concrete(len_t[2][0], env, 64))
+                    else:
+                        raise KeyError(len_t)
+                except S.Panics as e:
+                    probs.append("From<%s> panics for %s (%s) where the vector model has a value" % (rty, _rng(rty, s_, e_), e))
+                    break
+                except (KeyError, TypeError) as e:
+                    probs.append("From<%s> cannot be evaluated (%r)" % (rty, str(e)[:80]))
+                    break
+                n += 1
+                if (gs, gl) != want:
+                    probs.append("the range %s becomes (start %s, len %s), on a byte vector it is (start %s, len %s)" % (_rng(rty, s_, e_), gs, gl, want[0], want[1]))
+                    break
+            else:
+                continue
+            break
+    ctx.require(n >= 40 or probs, "M-RANGE: only %d evaluations" % n)
+    (ctx.bad if probs else ctx.ok)("M-RANGE", "M-RANGE:SliceRange::from", impls[0].span, "; ".join(probs[:2]) if probs else
+        "all six range forms normalise to the (start, len) of the same range on a byte vector (%d evaluations, empty ranges included)" % n)
+
+
+def _rng(rty, s_, e_):
+    return {"Range": "%d..%d" % (s_, e_), "RangeFrom": "%d.." % s_, "RangeFull": "..", "RangeInclusive": "%d..=%s" % (s_, e_ if not (s_ == e_ + 1) else "%d (empty)" % e_),
+            "RangeTo": "..%d" % e_, "RangeToInclusive": "..=%d" % e_}[rty]
